@@ -7,7 +7,8 @@
 //	xhelper delete <name>             GET /deleteconfig?config=<name>
 //	xhelper tempfiles <dir> <n>       create n temp files concurrently with other helpers (C20)
 //
-// env: XHELPER_FSIZE=k (limit), XHELPER_IGNORE_XFSZ=1 (turn the kill into a write error)
+// env: XHELPER_FSIZE=k (limit), XHELPER_IGNORE_XFSZ=1 (turn the kill into a write error),
+// XHELPER_LOCKTHREAD=1 (pin the save to the main thread for syscall-granular kills under strace)
 package main
 
 import (
@@ -15,6 +16,7 @@ import (
 	"net/url"
 	"os"
 	"os/signal"
+	"runtime"
 	"strconv"
 	"syscall"
 
@@ -27,6 +29,14 @@ func tiny() *profile.Profile {
 	l := &profile.Location{ID: 1, Address: 0x10, Line: []profile.Line{{Function: f, Line: 1}}}
 	return &profile.Profile{SampleType: []*profile.ValueType{{Type: "samples", Unit: "count"}}, PeriodType: &profile.ValueType{Type: "cpu", Unit: "nanoseconds"}, Period: 1,
 		Function: []*profile.Function{f}, Location: []*profile.Location{l}, Sample: []*profile.Sample{{Location: []*profile.Location{l}, Value: []int64{1}}}}
+}
+
+func init() {
+	// XHELPER_LOCKTHREAD: keep the main goroutine (which performs the save) on the main thread, so that a
+	// tracer's per-thread syscall counter sees every system call of the save in order.
+	if os.Getenv("XHELPER_LOCKTHREAD") != "" {
+		runtime.LockOSThread()
+	}
 }
 
 func main() {
